@@ -285,7 +285,7 @@ def run(ctx):
               'bisect.bisect_left modelled as the textbook binary search (Ring.v:bisect_loop)')
     # model and Coq spec evaluated inside coqc on the recorded observations
     try:
-        bad = ctx.coq_filter(['RingBase', 'Ring', 'PlacementSpec'], '(chk_both %s)' % MODEL_DD, col.cases, shard=250, prelude=rh.PRELUDE)
+        bad = ctx.coq_filter(['RingBase', 'Ring', 'PlacementSpec'], '(chk_both %s)' % MODEL_DD, col.cases, shard=max(8, (len(col.cases) + 47) // 48), prelude=rh.PRELUDE)
     except RuntimeError as e:
         ctx.proof_broken.append(('correspondence:Ring', str(e)[-800:]))
         bad = []
